@@ -227,6 +227,9 @@ def corpus():
            lambda s, n: "m_ = re.match(r'\\s*(\\d{4}/\\d{1,2}/\\d{1,2})\\s*(?:-\\s*(\\d{4}/\\d{1,2}/\\d{1,2})\\s*)?', x)\n    if m_ is None:\n      raise ValueError('bad entry')\n    tmp = [g_ for g_ in m_.groups() if g_ is not None]"))
   add('C20', 'benign: sorted(set(...))', 'benign', None, edit(ut, 'expand_time_windows', lambda n: isinstance(n, ast.Return), lambda s, n: 'return sorted(set(days_exclude))'))
   # ---- C19
+  add('C19', 'arms split by a Boolean key (rows of other groups fall into the control arm)', 'bad', 'R4/aggregation',
+      edit(td, 'TBRDiagnostics._create_analysis_data', lambda n: isinstance(n, ast.Assign) and norm(n.targets[0]) == 'self._analysis_data',
+           lambda s, n: 'self._analysis_data = data[columns[3]].groupby([data[columns[0]], data[columns[1]], (self._data[self._df_names.group] == self._groups.treatment).rename(columns[2])]).sum().unstack(columns[2]).rename(columns={False: "x", True: "y"})'))
   add('C19', 'report a different list than removed', 'bad', 'R2/report-equals-removal',
       edit(td, 'TBRDiagnostics.fit', lambda n: isinstance(n, ast.Assign) and norm(n.targets[0]) == "self._diagnostics['noisy_geos']", lambda s, n: "self._diagnostics['noisy_geos'] = sorted(remove_geos or [])[:1]"))
   add('C19', 'mask not negated', 'bad', 'R2/report-equals-removal', edit(td, 'TBRDiagnostics.fit', lambda n: isinstance(n, ast.UnaryOp) and isinstance(n.op, ast.Invert) and norm(n.operand) == 'exclude', 'exclude'))
@@ -257,6 +260,12 @@ def corpus():
       edit(mm, MMQ + 'treatment_group_size_range', lambda n: isinstance(n, ast.Assign) and norm(n.targets[0]) == 'treatment_geos_range',
            lambda s, n: 'par_ = self.parameters\n    par_ = dataclasses.replace(par_)\n    par_.n_designs = par_.n_designs\n    treatment_geos_range = par_.treatment_geos_range'))
   # ---- C09
+  add('C09', 'rows taken by an index array without integer dtype (empty geo list -> IndexError)', 'bad', 'R1i/index-array',
+      edit(md, 'TBRMMData.geo_index@setter', is_assign_to('self._array'),
+           lambda s, n: 'self._array = self.df.to_numpy()[np.array([list(self.df.index).index(g_) for g_ in geos])]'))
+  add('C09', 'benign: index array with dtype=int', 'benign', None,
+      edit(md, 'TBRMMData.geo_index@setter', is_assign_to('self._array'),
+           lambda s, n: 'self._array = self.df.to_numpy()[np.array([list(self.df.index).index(g_) for g_ in geos], dtype=int)]'))
   add('C09', 'revert fix: list(range).pop()', 'bad', 'R1b/empty-container',
       edit(mm, MMQ + 'exhaustive_search', lambda n: isinstance(n, ast.IfExp) and 'treatment_group_sizes' in norm(n), lambda s, n: 'list(self.treatment_group_size_range()).pop()'))
   add('C09', 'revert fix: empty-group guard of design_within_constraints removed', 'bad', 'R1c/division',
@@ -395,6 +404,10 @@ def corpus():
   # ---- C05 / C06 / C07 / C18
   add('C05', '1/n instead of 1/n_test in the multiplier', 'bad', 'R1/calibration', edit(dg, DG + '_impact_estimate', is_assign_to('sq'), lambda s, n: s.replace('1 / n_test)', '1 / n)')))
   add('C05', 'degrees of freedom n - 1', 'bad', 'R1/calibration', edit(dg, DG + '_impact_estimate', is_assign_to('tq_pow'), lambda s, n: s.replace('n - 2', 'n - 1')))
+  add('C05', 'correlation tested by truthiness (0.0 treated as missing)', 'bad', 'R3/arguments',
+      edit(dg, DG + 'required_impact', lambda n: isinstance(n, ast.Compare) and norm(n) == 'corr is None', 'not corr'))
+  add('C05', 'benign: correlation passed through a local', 'benign', None,
+      edit(dg, DG + 'required_impact', lambda n: isinstance(n, ast.Call) and norm(n) == 'self.estimate_required_impact(self.corr)', 'self.estimate_required_impact(corr)'))
   add('C05', 'sigma without the correlation factor', 'bad', 'R1/calibration', edit(dg, DG + 'estimate_required_impact', is_assign_to('sigma'), lambda s, n: 'sigma = np.std(self.y, ddof=2)'))
   add('C05', 'benign: n_test distributed into the square root', 'benign', None,
       edit(dg, DG + '_impact_estimate', is_assign_to('term'), lambda s, n: 'term = (tq_sig + tq_pow) * np.sqrt(n_test ** 2 * (phi * (n + 1) / (n * n_test * (n - 1)) + 1 / n + 1 / n_test))'))
@@ -414,6 +427,12 @@ def corpus():
   add('C07', 'benign: the global generator only when random_state is None', 'benign', None,
       edit(ti, 'TBRiROAS.summary', lambda n: isinstance(n, ast.Assign) and norm(n.targets[0]) == 'sims_response',
            lambda s, n: 'rng_ = np.random.mtrand._rand if random_state is None else np.random.RandomState(random_state)\n    sims_response = delta_response.rvs(nsims, random_state=random_state)'))
+  add('C07', 'scenario mask: pre or test rows of the control group only (treatment pre-period spend lost)', 'bad', 'R3/scenario',
+      edit(ti, 'TBRiROAS._is_fixed_cost_scenario', is_assign_to('tot_costs'),
+           lambda s, n: 'tot_costs = adata.loc[adata[self.df_names.period].isin((pre, test)) & (adata.index.get_level_values(0) == cntrl), key_cost].sum()'))
+  add('C07', 'benign: scenario total written with one mask', 'benign', None,
+      edit(ti, 'TBRiROAS._is_fixed_cost_scenario', is_assign_to('tot_costs'),
+           lambda s, n: 'tot_costs = sum(adata.loc[(adata[self.df_names.period] == pre) | ((adata[self.df_names.period] == test) & (adata.index.get_level_values(0) == cntrl)), key_cost])'))
   add('C07', 'scenario predicate ignores the pre-period', 'bad', 'R3/scenario', edit(ti, 'TBRiROAS._is_fixed_cost_scenario', is_assign_to('tot_costs'), lambda s, n: 'tot_costs = sum(test_costs_cntrl)'))
   add('C18', 'counterfactual lower uses the lower difference', 'bad', 'R1/column-algebra',
       edit(ti, 'TBRiROAS.estimate_pointwise_and_cumulative_effect', lambda n: isinstance(n, ast.BinOp) and norm(n) == 'treat_vec - upper', 'treat_vec - lower'))
